@@ -56,7 +56,7 @@ def C15(tier, seed):
 
 def C14(tier, seed):
     req = ["C14.make_outcome", "C14.wellformed", "C14.predicates", "C14.low_high", "C14.left_right", "C14.as_ref",
-           "C14.projection", "C14.tuple", "C14.optpair", "C14.roundtrip", "C14.width", "C14.eq", "C14.hash"]
+           "C14.projection", "C14.tuple", "C14.optpair", "C14.roundtrip", "C14.width", "C14.eq", "C14.hash", "C14.clone_from"]
     st = iv_chain(tier, req + ["C07.range_bounds", "C14.infinite_bounds"])
     st.adopt = {"C07.range_bounds", "C07.range_contains", "C07.range_contains_consistent"}     # Interval -> RangeBounds is a conversion too
     return {
